@@ -83,6 +83,10 @@ CHECKS["C13"] = dict(engine="ref", design_ref="5/C13", category="model_checking"
    technique=REF_TECH + "evaluates Admission.tla (deny beats allow, first matching secret configuration in order, IPv4-mapped = IPv4, bit-exact prefix containment) on every lookup of the real loader, and judges probe logins against the user set of the bound scope",
    text="Configurations with 1-3 ordered secret configurations over nested/overlapping IPv4 and IPv6 prefixes, deny/allow lists, users in one, several or no scopes and the same name with per-scope credentials are loaded by the real loader; connections arrive from first/last/just-outside/interior addresses of every prefix in 4-octet, IPv4-mapped and IPv6 form; TLC checks refused vs served, the key of the first matching configuration, no octet written and no handler on a refused connection, and (through probe logins with every scope's credentials) that only the bound scope's users exist.",
    note=REF_NOTE + " A secret configuration none of whose users exists is left to the ambiguity rule (the scope actually bound is identified by its key).")
+CHECKS["C16"] = dict(engine="reload", design_ref="5/C16", category="model_checking",
+   technique="Reload.tla model-checked (published only grows, current = Fresh(last good document)); TLC emits ALL document histories up to the bound; each is replayed on one real YAML/JSON loader instance and on a long-lived loader.Loader, next to fresh instances; Trace_Reload.tla judges every load and probe",
+   text="All histories (length <= 2 quick, <= 3 thorough plus sampled length 4) over a pool of 14 documents - dropping prefix_deny / prefix_allow / both, removing or reordering users and secrets, stripping a user's commands/services/groups/authenticator/accounter, unparsable text, type errors, missing users or secrets - are fed to one loader instance through Unmarshal and Load(path), in YAML and JSON. After every load TLC compares the published value with what a fresh real loader publishes for the same text, checks that bad documents publish nothing and that no earlier published value changed, and compares lookups (served?, key, visible users) of the long-lived Loader with a fresh Loader.",
+   note="Trusted: TLC, Go's encoding/json as normal form for comparing configurations. The fsnotify watcher is not driven (it calls the same Load). The document pool is fixed; histories over it are exhaustive to the stated length.")
 CHECKS["C07"]["engine"] = "server+ref"
 CHECKS["C07"]["technique"] = CHECKS["C07"]["technique"] + "; reference-server part: " + REF_TECH + "counts handler invocations and written packets per request for every handler path and configuration"
 CHECKS["C07"]["text"] = CHECKS["C07"]["text"] + " Reference level: the same count on the real reference server for every AAA path (well-formed, malformed, non-ASCII, out-of-place requests; users with and without authenticator/accounter/groups), with Handlers.tla predicting the single reply."
@@ -92,6 +96,8 @@ CHECKS["C05"] = dict(engine="framing", design_ref="5/C05", category="model_check
    note="Trusted: TLC, the scripted net.Conn (returns exactly the scripted chunk per Read). Chunkings and body lengths are seeded samples; exhaustive only in the scaled model.")
 
 ENGINES = [
+ {"name": "reload", "path": "lib/reload_family.py + spec/Reload.tla, MC_Reload.tla, Trace_Reload.tla + harness/reload.go",
+  "serves_properties": ["C16"], "kind_free_text": "exhaustive document histories replayed on real loaders, fresh-vs-reloaded comparison"},
  {"name": "ref", "path": "lib/ref_family.py, lib/refgen.py, lib/combo.py + spec/Handlers.tla, Authz.tla, Regex.tla, Admission.tla, Msgs.tla, Trace_Ref.tla + harness/ref.go, caplog.go",
   "serves_properties": ["C07", "C09", "C10", "C11", "C12", "C13", "C14", "C18"], "kind_free_text": "reference server replay + TLC trace validation with model and oracle layers"},
  {"name": "framing", "path": "lib/framing_family.py + spec/Framing.tla, FramingFn.tla, MC_Framing.tla, Trace_Framing.tla + harness/chaos.go (stream mode)",
